@@ -5,7 +5,9 @@ package main
 import (
 	"bufio"
 	"fmt"
+	"context"
 	"io"
+	"os"
 	"os/exec"
 	"sort"
 	"strconv"
@@ -28,6 +30,7 @@ type SolverStats struct {
 	Errors              int
 	Time                time.Duration
 	Queries             int
+	OneShot             int
 }
 
 type Solver struct {
@@ -40,12 +43,16 @@ type Solver struct {
 	declLog  []string
 	stack    [][]string // assertion text per level
 	Stats    SolverStats
-	timeout  int // ms
+	timeout  int // ms (incremental core)
+	hardTimeout int // ms (one-shot)
 	lastErr  string
 }
 
 func NewSolver(kind string, timeoutMs int) *Solver {
-	s := &Solver{name: kind, timeout: timeoutMs}
+	s := &Solver{name: kind, timeout: 1500, hardTimeout: timeoutMs}
+	if timeoutMs < s.timeout {
+		s.timeout = timeoutMs
+	}
 	switch kind {
 	case "z3":
 		s.argv = []string{"z3", "-in"}
@@ -225,8 +232,25 @@ func (s *Solver) Check() Verdict {
 	}
 	s.Stats.Queries++
 	s.Stats.Time += time.Since(t0)
+	if d := os.Getenv("VERIF_DUMP_SLOW"); d != "" && time.Since(t0) > 2*time.Second {
+		s.Stats.Errors += 0
+		var sb strings.Builder
+		for _, dl := range s.declLog {
+			sb.WriteString(dl + "\n")
+		}
+		for _, lvl := range s.stack {
+			for _, a := range lvl {
+				sb.WriteString(a + "\n")
+			}
+		}
+		sb.WriteString("(check-sat)\n")
+		dumpCounter++
+		os.WriteFile(fmt.Sprintf("%s/slow-%d-%d-%s-%.1fs.smt2", d, os.Getpid(), dumpCounter, v, time.Since(t0).Seconds()), []byte(sb.String()), 0o644)
+	}
 	return v
 }
+
+var dumpCounter int
 
 // CheckWith asserts extra in a fresh scope and checks.
 func (s *Solver) CheckWith(extra *Term) Verdict {
@@ -332,6 +356,9 @@ func parseValue(v []string) uint64 {
 			u, _ := strconv.ParseUint(a[2:], 2, 64)
 			return u
 		}
+		if u, err := strconv.ParseUint(a, 10, 64); err == nil {
+			return u
+		}
 		return 0
 	}
 	// (_ bvN w)
@@ -427,4 +454,260 @@ func (s *Solver) ValueOf(t *Term) (uint64, bool) {
 		return parseValue(toks[i:end]), true
 	}
 	return parseValue(toks[end-1 : end]), true
+}
+
+func termHasFP(t *Term, seen map[*Term]bool) bool {
+	if seen[t] {
+		return false
+	}
+	seen[t] = true
+	if t.S.K == SFP {
+		return true
+	}
+	for _, a := range t.Args {
+		if termHasFP(a, seen) {
+			return true
+		}
+	}
+	return false
+}
+
+// script renders declarations and the whole assertion stack.
+func (s *Solver) script() string {
+	var sb strings.Builder
+	for _, d := range s.declLog {
+		sb.WriteString(d + "\n")
+	}
+	for _, lvl := range s.stack {
+		for _, a := range lvl {
+			sb.WriteString(a + "\n")
+		}
+	}
+	return sb.String()
+}
+
+// Solve decides PC ∧ extra and returns a model of the given variables when sat.
+// Bit-vector-only problems go to the incremental process first (fast on small queries) under a short
+// timeout; floating-point problems and anything the incremental core does not settle quickly are sent to a
+// fresh one-shot process, where z3 applies its full preprocessing/bit-blasting tactic.
+func (s *Solver) Solve(extra *Term, vars []*Term) (Verdict, Model) {
+	s.Push()
+	defer s.Pop()
+	if extra != nil {
+		s.Assert(extra)
+	}
+	for _, v := range vars {
+		s.declareVars(map[string]*Term{v.Name: v})
+	}
+	if !s.hasFP() {
+		errs := s.Stats.Errors
+		v := s.Check()
+		if s.Stats.Errors != errs {
+			v = Unknown
+		}
+		if v == Sat {
+			return v, s.Model(vars)
+		}
+		if v == Unsat {
+			return v, nil
+		}
+		s.Stats.Unknown-- // re-decided below
+		s.Stats.Queries--
+	}
+	return s.oneShot(vars)
+}
+
+func (s *Solver) hasFP() bool {
+	for _, lvl := range s.stack {
+		for _, a := range lvl {
+			if strings.Contains(a, "fp.") || strings.Contains(a, "to_fp") {
+				return true
+			}
+		}
+	}
+	return false
+}
+
+func (s *Solver) oneShot(vars []*Term) (Verdict, Model) {
+	var sb strings.Builder
+	sb.WriteString(s.script())
+	sb.WriteString("(check-sat)\n")
+	if len(vars) > 0 {
+		sb.WriteString("(get-value (")
+		for _, v := range vars {
+			sb.WriteString(v.Name + " ")
+		}
+		sb.WriteString("))\n")
+	}
+	return s.oneShotScript(sb.String(), len(vars) > 0)
+}
+
+func (s *Solver) oneShotScript(script string, wantModel bool) (Verdict, Model) {
+	return s.oneShotScriptWith("z3", script, wantModel)
+}
+
+func (s *Solver) oneShotScriptWith(bin string, script string, wantModel bool) (Verdict, Model) {
+	t0 := time.Now()
+	cmd := exec.Command(bin, "-in", fmt.Sprintf("-t:%d", s.hardTimeout))
+	cmd.Stdin = strings.NewReader(script)
+	out, _ := cmd.CombinedOutput()
+	txt := string(out)
+	s.Stats.Queries++
+	s.Stats.OneShot++
+	s.Stats.Time += time.Since(t0)
+	lines := strings.SplitN(txt, "\n", 2)
+	first := strings.TrimSpace(lines[0])
+	switch first {
+	case "unsat":
+		s.Stats.Unsat++
+		return Unsat, nil
+	case "sat":
+		s.Stats.Sat++
+		m := Model{}
+		if wantModel && len(lines) > 1 {
+			m = parseModel(lines[1])
+		}
+		return Sat, m
+	}
+	if strings.Contains(txt, "(error") {
+		s.lastErr = first
+		s.Stats.Errors++
+	}
+	s.Stats.Unknown++
+	return Unknown, nil
+}
+
+func parseModel(resp string) Model {
+	m := Model{}
+	toks := tokenize(resp)
+	if len(toks) == 0 || toks[0] != "(" {
+		return m
+	}
+	i := 1
+	for i < len(toks) && toks[i] == "(" {
+		name := toks[i+1]
+		i += 2
+		var val []string
+		if toks[i] == "(" {
+			d := 0
+			for {
+				val = append(val, toks[i])
+				if toks[i] == "(" {
+					d++
+				} else if toks[i] == ")" {
+					d--
+				}
+				i++
+				if d == 0 {
+					break
+				}
+			}
+		} else {
+			val = []string{toks[i]}
+			i++
+		}
+		i++
+		m[name] = parseValue(val)
+	}
+	return m
+}
+
+type racer struct {
+	name   string
+	argv   []string
+	script string
+	strip  string // suffix to strip from model variable names
+}
+
+type raceResult struct {
+	v    Verdict
+	m    Model
+	name string
+}
+
+// race runs several solver processes on equivalent scripts and returns the first definite answer.
+func (s *Solver) race(rs []racer, wantModel bool, timeout time.Duration) (Verdict, Model, string) {
+	t0 := time.Now()
+	ctx, cancel := context.WithTimeout(context.Background(), timeout)
+	defer cancel()
+	ch := make(chan raceResult, len(rs))
+	for _, r := range rs {
+		go func(r racer) {
+			cmd := exec.CommandContext(ctx, r.argv[0], r.argv[1:]...)
+			cmd.Stdin = strings.NewReader(r.script)
+			out, _ := cmd.CombinedOutput()
+			txt := strings.TrimSpace(string(out))
+			lines := strings.SplitN(txt, "\n", 2)
+			res := raceResult{v: Unknown, name: r.name}
+			switch strings.TrimSpace(lines[0]) {
+			case "unsat":
+				res.v = Unsat
+			case "sat":
+				res.v = Sat
+				res.m = Model{}
+				if wantModel && len(lines) > 1 {
+					for k, val := range parseModel(lines[1]) {
+						res.m[strings.TrimSuffix(k, r.strip)] = val
+					}
+				}
+			}
+			if strings.Contains(txt, "(error") && !benignErrors(txt, res.v) {
+				res.v = Unknown
+			}
+			ch <- res
+		}(r)
+	}
+	var out raceResult
+	out.v = Unknown
+	for i := 0; i < len(rs); i++ {
+		r := <-ch
+		if r.v != Unknown {
+			out = r
+			cancel()
+			break
+		}
+	}
+	s.Stats.Queries++
+	s.Stats.OneShot++
+	s.Stats.Time += time.Since(t0)
+	switch out.v {
+	case Sat:
+		s.Stats.Sat++
+	case Unsat:
+		s.Stats.Unsat++
+	default:
+		s.Stats.Unknown++
+	}
+	return out.v, out.m, out.name
+}
+
+// bvScript renders the stack (plus declarations for vars) with a get-value request.
+func (s *Solver) bvScript(vars []*Term) string {
+	var sb strings.Builder
+	sb.WriteString(s.script())
+	sb.WriteString("(check-sat)\n")
+	if len(vars) > 0 {
+		sb.WriteString("(get-value (")
+		for _, v := range vars {
+			sb.WriteString(v.Name + " ")
+		}
+		sb.WriteString("))\n")
+	}
+	return sb.String()
+}
+
+// benignErrors: after an unsat answer the only acceptable error is the refused get-value.
+func benignErrors(txt string, v Verdict) bool {
+	if v != Unsat {
+		return false
+	}
+	for _, l := range strings.Split(txt, "\n") {
+		if strings.Contains(l, "(error") {
+			if !(strings.Contains(l, "model is not available") || strings.Contains(l, "get-value") ||
+				strings.Contains(l, "cannot get value") || strings.Contains(l, "Cannot get value")) {
+				return false
+			}
+		}
+	}
+	return true
 }
